@@ -73,6 +73,7 @@ type respSpec struct {
 	badDoc    bool
 	entries   []entry
 	raw       string // body for badDoc
+	pad       int    // good documents: bytes of an extra member before "keys" (huge documents)
 }
 
 type tokSpec struct {
@@ -140,10 +141,7 @@ func sign(kid string, k *keyEnt, payload []byte) string {
 	return c
 }
 
-func (r *respSpec) body() []byte {
-	if r.badDoc {
-		return []byte(r.raw)
-	}
+func (r *respSpec) parts() []string {
 	parts := make([]string, 0, len(r.entries))
 	for _, e := range r.entries {
 		if e.jwk == nil {
@@ -154,7 +152,18 @@ func (r *respSpec) body() []byte {
 		must(err)
 		parts = append(parts, string(b))
 	}
-	return []byte(`{"keys":[` + strings.Join(parts, ",") + `]}`)
+	return parts
+}
+
+func (r *respSpec) body() []byte {
+	if r.badDoc {
+		return []byte(r.raw)
+	}
+	pre := ""
+	if r.pad > 0 {
+		pre = strings.Repeat(" ", r.pad/2) + `"issuer":"https://op.example","padding":"` + strings.Repeat("x", r.pad/2) + `",`
+	}
+	return []byte(`{` + pre + `"keys":[` + strings.Join(r.parts(), ",") + `]}`)
 }
 
 // ---------------------------------------------------------------- Coq rendering
@@ -208,6 +217,7 @@ type snap struct {
 	Delivered bool     `json:"delivered"`
 	Stat      []string `json:"stat"`
 	Cache     []int    `json:"cache"`
+	Quiet     bool     `json:"quiet"` // false = no stable state within the time-out (something hangs)
 }
 
 func coqObserved(snaps []snap, panicked bool) string {
@@ -220,7 +230,7 @@ func coqObserved(snaps []snap, panicked bool) string {
 		for j, m := range s.Cache {
 			cache[j] = emit.Nat(m)
 		}
-		items[i] = emit.Ctor("mkSnap", emit.Nat(s.Req), emit.Bool(s.Delivered), emit.List(s.Stat), emit.List(cache))
+		items[i] = emit.Ctor("mkSnap", emit.Nat(s.Req), emit.Bool(s.Delivered), emit.List(s.Stat), emit.List(cache), emit.Bool(s.Quiet))
 	}
 	return emit.Ctor("OScript", emit.List(items))
 }
@@ -335,17 +345,22 @@ func (rn *runner) quiet(ks oidc.KeySet, g *gate, callers []*callerState) bool {
 	return !gated || parked(st, "main.(*gate).RoundTrip(") >= 1
 }
 
-func (rn *runner) quiesce(ks oidc.KeySet, g *gate, callers []*callerState) {
+// quiesce waits until the state is stable. It never waits longer than maxWait, and once a
+// wait of this run has timed out (a broken tree: something hangs) the remaining waits get
+// a tenth of it; the time-out is an observed outcome (snapshot field quiet=false).
+func (rn *runner) quiesce(ks oidc.KeySet, g *gate, callers []*callerState) bool {
 	wait := rn.maxWait
-	if rn.timeouts >= 3 {
+	if rn.timeouts >= 1 {
 		wait = rn.maxWait / 10
 	}
 	deadline := time.Now().Add(wait)
 	ok, polls := 0, 0
+	quiet := false
 	for {
 		if rn.quiet(ks, g, callers) {
 			ok++
 			if ok >= 2 {
+				quiet = true
 				break
 			}
 		} else {
@@ -369,6 +384,7 @@ func (rn *runner) quiesce(ks oidc.KeySet, g *gate, callers []*callerState) {
 	if rn.settle > 0 {
 		time.Sleep(rn.settle)
 	}
+	return quiet
 }
 
 func classify(payload []byte, err error, want []byte) string {
@@ -489,21 +505,21 @@ func (rn *runner) run(s *script) (snaps []snap, panicked bool) {
 			// timers that share the deadline a moment to fire before looking for quiescence
 			select {
 			case <-ctxOf(st.tid, si).ctx.Done():
-			case <-time.After(10 * time.Second):
+			case <-time.After(3 * time.Second):
 			}
 			delete(deadlines, st.tid)
 			time.Sleep(2*time.Millisecond + rn.settle)
 		case "release":
 			delivered = g.release(st.resp)
 		}
-		rn.quiesce(ks, g, callers)
+		quiet := rn.quiesce(ks, g, callers)
 		for _, d := range deadlines { // a deadline that is (nearly) over before its Expire step
 			if !time.Now().Before(d.Add(-2 * time.Millisecond)) {
 				rn.tainted = true
 			}
 		}
 		req, _ := g.state()
-		sn := snap{Req: req, Delivered: delivered, Cache: []int{}}
+		sn := snap{Req: req, Delivered: delivered, Cache: []int{}, Quiet: quiet}
 		for _, c := range callers {
 			if c.done.Load() {
 				sn.Stat = append(sn.Stat, c.status)
@@ -527,6 +543,7 @@ type gen struct {
 	pool   []*keyEnt
 	nkid   int
 	ntok   int
+	nfail  int
 	nkinds map[string]bool
 }
 
@@ -619,10 +636,53 @@ var junkEntries = []string{
 	`{"kty":"XYZ","kid":"k1","use":"sig"}`, `{"kty":"EC","crv":"P-999","x":"AA","y":"AA","kid":"k2"}`,
 	`5`, `"str"`, `{}`, `null`, `{"kty":"RSA","n":"!!","e":"AQAB"}`,
 }
-var badDocs = []string{`{"keys":[`, `{"keys":5}`, `[]`, ``, `not json`, `{"keys":{}}`, `{"keys":"k1"}`}
+
+// malformed builds a 200 body that is NOT one well-formed JSON object with a "keys" array,
+// out of a perfectly good document for the current key set (so it contains every key a
+// waiting token needs): the catalogue of "malformed JWKS download".
+func (g *gen) malformed(set []*jwkSpec, kind int) *respSpec {
+	good := g.goodResp(set)
+	doc := string(good.body())
+	parts := good.parts()
+	first := `{"kty":"EC"}`
+	if len(parts) > 0 {
+		first = parts[0]
+	}
+	r := &respSpec{status: 200, badDoc: true}
+	if kind < 0 {
+		kind = g.r.IntN(6)
+	}
+	switch kind % 6 {
+	case 0: // a complete document followed by more bytes
+		r.kind = "trailing"
+		r.raw = doc + drv.Pick(g.r, []string{"<html><body>503 maintenance</body></html>", doc, "]}", "\n{}", " x", ",", "}", "\x00", "\n\n//ok"})
+	case 1: // cut anywhere
+		r.kind = "truncated"
+		r.raw = doc[:1+g.r.IntN(len(doc)-1)]
+	case 2: // wrong top-level type
+		r.kind = "toplevel"
+		r.raw = drv.Pick(g.r, []string{"[" + strings.Join(parts, ",") + "]", "[]", `"` + "keys" + `"`, "5", "true"})
+	case 3: // keys is not an array
+		r.kind = "keysnotarray"
+		r.raw = drv.Pick(g.r, []string{`{"keys":` + first + `}`, `{"keys":"k1"}`, `{"keys":5}`, `{"keys":{}}`, `{"keys":true}`})
+	case 4: // valid JSON object, not a JWKS
+		r.kind = "notjwks"
+		r.raw = drv.Pick(g.r, []string{`{}`, `{"error":"server_error"}`, `{"keys":null}`, first, `{"jwks":[` + strings.Join(parts, ",") + `]}`, `{"message":"maintenance","status":200}`})
+	default:
+		r.kind = "notjson"
+		r.raw = drv.Pick(g.r, []string{``, `not json`, `<html><body>login</body></html>`, `{keys:[]}`, `{'keys':[]}`})
+	}
+	return r
+}
 
 func (g *gen) goodResp(set []*jwkSpec) *respSpec {
 	r := &respSpec{kind: "good", status: 200}
+	if g.r.Chance(1, 25) { // a huge but well-formed document is still a good download
+		r.kind, r.pad = "goodhuge", 100000+g.r.IntN(200000)
+		for k := 40 + g.r.IntN(40); k > 0; k-- {
+			r.entries = append(r.entries, entry{junk: drv.Pick(g.r, junkEntries)})
+		}
+	}
 	for _, j := range set {
 		if g.r.Chance(1, 6) {
 			r.entries = append(r.entries, entry{junk: drv.Pick(g.r, junkEntries)})
@@ -633,7 +693,7 @@ func (g *gen) goodResp(set []*jwkSpec) *respSpec {
 }
 
 func (g *gen) failResp(set []*jwkSpec) *respSpec {
-	switch g.r.IntN(7) {
+	switch g.r.IntN(8) {
 	case 0:
 		return &respSpec{kind: "transport", transport: true}
 	case 1:
@@ -642,8 +702,8 @@ func (g *gen) failResp(set []*jwkSpec) *respSpec {
 		r := g.goodResp(set)
 		r.kind, r.status = "5xxjwks", drv.Pick(g.r, []int{500, 503, 404, 204, 201})
 		return r
-	case 3, 4:
-		return &respSpec{kind: "badjson", status: 200, badDoc: true, raw: drv.Pick(g.r, badDocs)}
+	case 3, 4, 7:
+		return g.malformed(set, -1)
 	case 5: // well-formed document without usable keys: a VALID empty key set
 		r := &respSpec{kind: "junkonly", status: 200}
 		for k := 1 + g.r.IntN(2); k > 0; k-- {
@@ -700,6 +760,15 @@ func (g *gen) randomScript() *script {
 	return s
 }
 
+// nextFailure walks through the catalogue: the six malformed kinds in turn, then a random failure
+func (g *gen) nextFailure(set []*jwkSpec) *respSpec {
+	g.nfail++
+	if g.nfail%7 == 0 {
+		return g.failResp(set)
+	}
+	return g.malformed(set, g.nfail%7-1)
+}
+
 // directed shapes, each with a little random variation
 func (g *gen) directed(which int) *script {
 	tl := g.timeline(2)
@@ -730,6 +799,24 @@ func (g *gen) directed(which int) *script {
 		s.tags = []string{"shape=joiner_cancel"}
 		add(step{op: "arrive", tok: valid(0)}, step{op: "arrive", tok: valid(0)}, step{op: "arrive", tok: valid(0)},
 			step{op: "cancel", tid: 1 + g.r.IntN(2)}, step{op: "release", resp: g.goodResp(tl[0])})
+	case 8: // recovery: a download fails, the endpoint recovers and has rotated meanwhile
+		s.tags = []string{"shape=recovery", "rotate=1"}
+		hardFail := func() *respSpec {
+			for {
+				if r := g.failResp(tl[1]); r.kind != "junkonly" && r.kind != "empty" {
+					return r
+				}
+			}
+		}
+		if g.r.Bool() { // with or without a warm cache
+			add(step{op: "arrive", tok: valid(0)}, step{op: "release", resp: g.goodResp(tl[0])})
+		}
+		add(step{op: "arrive", tok: valid(1)}, step{op: "release", resp: hardFail()})
+		if g.r.Bool() {
+			add(step{op: "arrive", tok: valid(1)}, step{op: "release", resp: hardFail()})
+		}
+		add(step{op: "arrive", tok: valid(1)}, step{op: "arrive", tok: valid(0)}, step{op: "release", resp: g.goodResp(tl[1])},
+			step{op: "arrive", tok: valid(1)})
 	case 6: // the owner of the download carries a deadline that passes while others wait
 		s.tags = []string{"shape=owner_expire"}
 		add(step{op: "arrive", tok: valid(0)})
@@ -750,7 +837,7 @@ func (g *gen) directed(which int) *script {
 		s.tags = []string{"shape=failure_keeps_cache"}
 		add(step{op: "arrive", tok: valid(0)}, step{op: "release", resp: g.goodResp(tl[0])})
 		add(step{op: "arrive", tok: g.token("unknownkid", "nope9", drv.Pick(g.r, g.pool))}, step{op: "arrive", tok: valid(1)},
-			step{op: "release", resp: g.failResp(tl[1])}, step{op: "arrive", tok: valid(0)}, step{op: "arrive", tok: valid(0)})
+			step{op: "release", resp: g.nextFailure(tl[1])}, step{op: "arrive", tok: valid(0)}, step{op: "arrive", tok: valid(0)})
 	default: // unknown kid: one refresh, then reject; again one refresh for the next call
 		s.tags = []string{"shape=unknown_kid"}
 		add(step{op: "arrive", tok: valid(0)}, step{op: "release", resp: g.goodResp(tl[0])})
@@ -1000,13 +1087,14 @@ func main() {
 	n := cfg.Count(160, 3000)
 	pool := mkPool()
 	g := &gen{r: r, pool: pool}
-	maxWait := 300 * time.Millisecond
+	maxWait := 150 * time.Millisecond
 	reruns, unstable, timeouts, droppedTaint := 0, 0, 0, 0
+	hangStreak, hangConfirmations, hungScripts := 0, 0, 0
 
 	for i := 0; i < n; i++ {
 		var s *script
 		if i%4 == 0 {
-			s = g.directed((i / 4) % 8)
+			s = g.directed((i / 4) % 9)
 		} else {
 			s = g.randomScript()
 		}
@@ -1018,23 +1106,39 @@ func main() {
 		// run twice with different pacing; a script whose two observations differ (or in which
 		// a deadline ran out before its Expire step) is re-run with longer waits and longer
 		// deadlines (DESIGN App. C); the last observation counts
-		runBoth := func(mw, settle, dl time.Duration) (a, b []snap, pa, pb, tainted bool) {
+		runBoth := func(mw, settle, dl time.Duration) (a, b []snap, pa, pb, tainted bool, to int) {
 			r1 := &runner{pool: pool, maxWait: mw, settle: settle, dlBase: dl, dlStep: dl / 2}
 			a, pa = r1.run(s)
 			r2 := &runner{pool: pool, maxWait: mw, settle: settle + 300*time.Microsecond, dlBase: dl, dlStep: dl / 2}
 			b, pb = r2.run(s)
 			timeouts += r1.timeouts + r2.timeouts
-			return a, b, pa, pb, r1.tainted || r2.tainted
+			return a, b, pa, pb, r1.tainted || r2.tainted, r1.timeouts + r2.timeouts
 		}
 		dl := 12 * time.Millisecond
-		snaps, snaps2, pan, pan2, tainted := runBoth(maxWait, 0, dl)
-		for k := 1; k <= 3 && (tainted || pan != pan2 || !reflect.DeepEqual(snaps, snaps2)); k++ {
+		snaps, snaps2, pan, pan2, tainted, to := runBoth(maxWait, 0, dl)
+		// A quiescence time-out is an observed outcome (snapshot quiet=false), but on a busy
+		// machine it can be a late goroutine: confirm it once with 4x the wait - until ten
+		// scripts in a row have confirmed that the tree really hangs, then stop paying for it.
+		if to > 0 && hangStreak < 10 {
+			hangConfirmations++
+			snaps, snaps2, pan, pan2, tainted, to = runBoth(maxWait*4, time.Millisecond, dl)
+			if to > 0 {
+				hangStreak++
+			} else {
+				hangStreak = 0
+			}
+		}
+		for k := 1; k <= 3 && to == 0 && (tainted || pan != pan2 || !reflect.DeepEqual(snaps, snaps2)); k++ {
 			reruns++
 			if k == 3 {
 				unstable++
 			}
 			dl *= 4
-			snaps, snaps2, pan, pan2, tainted = runBoth(maxWait*10, time.Duration(k)*3*time.Millisecond, dl)
+			snaps, snaps2, pan, pan2, tainted, to = runBoth(maxWait*3, time.Duration(k)*3*time.Millisecond, dl)
+		}
+		if to > 0 {
+			hungScripts++
+			tainted = false // reported as it is
 		}
 		if tainted { // still no run in which every deadline outlived the steps before its Expire: not an observation
 			droppedTaint++
@@ -1053,8 +1157,8 @@ func main() {
 				hs = append(hs, fmt.Sprintf("expire %d (context.WithDeadline passes)", st.tid))
 			default:
 				b, _ := json.Marshal(string(st.resp.body()))
-				if len(b) > 160 {
-					b = append(b[:160], "..."...)
+				if len(b) > 200 {
+					b = append(append(b[:140:140], "..."...), b[len(b)-50:]...)
 				}
 				hs = append(hs, fmt.Sprintf("release %s status=%d body=%s", st.resp.kind, st.resp.status, b))
 			}
@@ -1085,11 +1189,12 @@ func main() {
 	must(w.Close(emit.Meta{
 		Property: "C13", Tier: cfg.Tier, Seed: cfg.Seed,
 		Rule: "each case = one macro-schedule (arrive/cancel/expire/release; expire = a real context.WithDeadline passing) of 2-6 concurrent VerifySignature calls on a fresh rp.NewRemoteKeySet " +
-			"behind a gated RoundTripper; 1 in 4 directed shapes (owner cancel, pre-cancelled owner, joiner cancel, owner deadline expires, joiner deadline expires, rotation, failure keeps cache, unknown kid), " +
-			"the rest random phases over a timeline of rotating key sets with valid/future/older/unknown-kid/kid-less/wrong-key tokens and good/5xx/5xx-with-JWKS/bad-JSON/junk-only/empty/transport-error answers. " +
+			"behind a gated RoundTripper; 1 in 4 directed shapes (owner cancel, pre-cancelled owner, joiner cancel, owner deadline expires, joiner deadline expires, rotation, failure keeps cache, unknown kid, fail-recover-rotate), " +
+			"the rest random phases over a timeline of rotating key sets with valid/future/older/unknown-kid/kid-less/wrong-key tokens and good/huge/5xx/non-200-with-JWKS/malformed (trailing bytes, truncated, wrong top-level type, keys not an array, not a JWKS, not JSON)/junk-only/empty/transport-error answers. " +
 			"Observed = snapshot after every step at quiescence. non-trivial = at least one caller arrived (path != 0); distinct = distinct (input, observed) terms.",
 		Notes: notes,
 		Extra: map[string]any{"reruns_after_disagreeing_observations": reruns, "unstable_scripts": unstable, "quiescence_timeouts": timeouts,
-			"dropped_deadline_before_expire_step": droppedTaint},
+			"dropped_deadline_before_expire_step": droppedTaint, "scripts_with_quiescence_timeout": hungScripts,
+			"timeout_confirmation_reruns": hangConfirmations},
 	}))
 }
